@@ -35,10 +35,22 @@ static std::vector<std::string> split(const std::string &s, char sep) {
 }
 
 static tulz::ConcurrentSubjectRouter *g_aux = nullptr;
+
+// crowd configurations (`!` in front of <init>): the first callback delivered by thread 1's notify keeps the delivery open until every
+// other thread is parked inside the router's Resource (each of them starts with a mutating operation and issues it only once the
+// delivery is in progress) — 30-40 requests queued behind one slow delivery
+static bool g_crowd = false, g_holding = false;
+static int g_holdTarget = 0;
+static int parkedCount() { int n = 0; for (auto &t : verif::Sched::I().ts) if (t.st == verif::Sched::PARKED) n++; return n; }
+static void insideCallback() {
+    if (g_crowd && !g_holding) { g_holding = true; verif::await([] { return parkedCount() >= g_holdTarget; }); }
+    else verif::yield();
+}
 static thread_local std::function<void()> t_bridge;
 
 static void runThread(tulz::ConcurrentSubjectRouter &router, int t, const std::vector<std::string> &ops) {
     std::vector<tulz::USubscription> subs;
+    if (g_crowd && t != 1) verif::await([] { return g_holding; });
     for (size_t i = 0; i < ops.size(); i++) {
         const std::string &op = ops[i];
         if (op.empty()) continue;
@@ -87,8 +99,13 @@ static void runThread(tulz::ConcurrentSubjectRouter &router, int t, const std::v
     ev("done " + std::to_string(t));
 }
 
-static void runOne(const std::string &cfg) {
+static void runOne(const std::string &cfgIn) {
+    std::string cfg = cfgIn;
+    g_crowd = !cfg.empty() && cfg[0] == '!';
+    g_holding = false;
+    if (g_crowd) cfg.erase(0, 1);
     auto parts = split(cfg, '|');
+    g_holdTarget = (int) split(parts.at(1), ',').size() - 1;
     tulz::ConcurrentSubjectRouter router, aux;
     {
         // stable ids: the Resource of the router under test is m0 / c1, the auxiliary router's m2 / c3 (the replay looks at m0 / c1 only)
@@ -107,7 +124,7 @@ static void runOne(const std::string &cfg) {
             initial.emplace_back(router.subscribe(mkKey(k), [obs] {
                 int me = verif::self();
                 ev("cb " + std::to_string(me) + " " + std::to_string(obs));
-                verif::yield();
+                insideCallback();
                 ev("cbx " + std::to_string(me) + " " + std::to_string(obs));
             }));
             ev("opret 0 " + std::to_string(obs - 1) + " " + std::to_string(obs));
